@@ -193,6 +193,8 @@ pub enum UOp {
     Get { cancel: bool },
     TryGet,
     TimeoutGet0,
+    /// `timeout_remove(Some(0))`
+    TimeoutRemove0,
     Add { cancel: bool },
     TryAdd,
     Remove,
@@ -262,6 +264,33 @@ fn finish_get(who: usize, r: Result<Object<UObj>, PoolError>, nonblocking: bool,
         }
         Err(e) => {
             trace!("  caller {} get -> {:?}", who, e);
+            u(|w| {
+                w.get_err(who, &e, nonblocking);
+                w.results.push((who, format!("{:?}", e)));
+                w.end(who);
+            });
+        }
+    }
+}
+
+/// Result of the pool's own `remove()` / `timeout_remove()` (an opaque call:
+/// which object it took is only known afterwards).
+fn finish_remove(who: usize, r: Result<UObj, PoolError>, nonblocking: bool) {
+    match r {
+        Ok(o) => {
+            let id = o.id;
+            trace!("  caller {} remove -> object {}", who, id);
+            u(|w| {
+                w.handout(who, id);
+                w.objs[id].loc = ULoc::Back;
+                w.back.push(o);
+                w.touch();
+                w.results.push((who, format!("removed{}", id)));
+                w.end(who);
+            });
+        }
+        Err(e) => {
+            trace!("  caller {} remove -> {:?}", who, e);
             u(|w| {
                 w.get_err(who, &e, nonblocking);
                 w.results.push((who, format!("{:?}", e)));
@@ -402,12 +431,25 @@ fn exec(pool: &Pool<UObj>, op: &UOp, me: usize) {
                 }),
             }
         }
+        UOp::TimeoutRemove0 => {
+            u(|w| w.begin(me, UKind::Remove, None));
+            match catch_unwind(AssertUnwindSafe(|| sched::block_on(pool.timeout_remove(Some(std::time::Duration::ZERO)), false))) {
+                Ok(Ok(r)) => finish_remove(me, r, true),
+                Ok(Err(_)) => u(|w| {
+                    w.violate(&["C12"], "zero-timeout-get-pending", "timeout_remove(0) returned Pending".into());
+                    w.end(me);
+                }),
+                Err(p) => u(|w| {
+                    w.violate(&["C12"], "panic-in-timeout_remove", format!("timeout_remove panicked: {}", explorer::panic_msg(&p)));
+                    w.end(me);
+                }),
+            }
+        }
         UOp::Remove => {
-            u(|w| w.begin(me, UKind::Get, None));
+            u(|w| w.begin(me, UKind::Remove, None));
             trace!("  caller {} remove()", me);
-            // remove() = get().map(Object::take); drive get and take separately so the ledger sees both
-            match catch_unwind(AssertUnwindSafe(|| sched::block_on(pool.get(), true))) {
-                Ok(Ok(r)) => finish_get(me, r, false, true),
+            match catch_unwind(AssertUnwindSafe(|| sched::block_on(pool.remove(), true))) {
+                Ok(Ok(r)) => finish_remove(me, r, false),
                 Ok(Err(_)) => u(|w| {
                     w.end(me);
                 }),
@@ -800,6 +842,7 @@ enum SOp {
     Cancel(usize),
     TryGet,
     TimeoutGet0,
+    TimeoutRemove0,
     TryAdd,
     TryRemove,
     Release(usize),
@@ -811,6 +854,7 @@ enum SOp {
 enum TaskKind {
     Get { take: bool, task: Task<Result<Object<UObj>, PoolError>> },
     Add { id: usize, task: Task<Result<(), (UObj, PoolError)>> },
+    Remove { task: Task<Result<UObj, PoolError>> },
 }
 
 struct UTask {
@@ -823,10 +867,11 @@ impl UTask {
         match &self.kind {
             TaskKind::Get { task, .. } => task.woken(),
             TaskKind::Add { task, .. } => task.woken(),
+            TaskKind::Remove { task } => task.woken(),
         }
     }
     fn is_get(&self) -> bool {
-        matches!(self.kind, TaskKind::Get { .. })
+        matches!(self.kind, TaskKind::Get { .. } | TaskKind::Remove { .. })
     }
 }
 
@@ -844,6 +889,21 @@ fn poll_utask(t: &mut UTask) -> bool {
                 task.cancel();
                 u(|w| {
                     w.violate(&["C12"], "panic-in-get", format!("get panicked: {}", explorer::panic_msg(&p)));
+                    w.end(who);
+                });
+                true
+            }
+        },
+        TaskKind::Remove { task } => match catch_unwind(AssertUnwindSafe(|| task.poll())) {
+            Ok(None) => false,
+            Ok(Some(r)) => {
+                finish_remove(who, r, false);
+                true
+            }
+            Err(p) => {
+                task.cancel();
+                u(|w| {
+                    w.violate(&["C12"], "panic-in-remove", format!("remove panicked: {}", explorer::panic_msg(&p)));
                     w.end(who);
                 });
                 true
@@ -899,6 +959,7 @@ pub fn run_useq(sc: &USeqScenario) -> Outcome {
         }
         ops.push((SOp::TryRemove, Cost::FREE));
         ops.push((SOp::TimeoutGet0, Cost::FREE));
+        ops.push((SOp::TimeoutRemove0, Cost::FREE));
         for h in &holders {
             ops.push((SOp::Take(*h), Cost::FREE));
         }
@@ -925,13 +986,25 @@ pub fn run_useq(sc: &USeqScenario) -> Outcome {
         };
         match op {
             SOp::Stop => break,
-            SOp::StartGet | SOp::StartRemove => {
+            SOp::StartGet => {
                 let who = next_who;
                 next_who += 1;
                 u(|w| w.begin(who, UKind::Get, None));
                 let p = pool.clone();
                 let task = Task::new(async move { p.get().await });
-                let mut t = UTask { who, kind: TaskKind::Get { take: matches!(op, SOp::StartRemove), task } };
+                let mut t = UTask { who, kind: TaskKind::Get { take: false, task } };
+                if !poll_utask(&mut t) {
+                    tasks.push(t);
+                }
+            }
+            SOp::StartRemove => {
+                // the pool's own remove() (timeout_remove with the configured timeout)
+                let who = next_who;
+                next_who += 1;
+                u(|w| w.begin(who, UKind::Remove, None));
+                let p = pool.clone();
+                let task = Task::new(async move { p.remove().await });
+                let mut t = UTask { who, kind: TaskKind::Remove { task } };
                 if !poll_utask(&mut t) {
                     tasks.push(t);
                 }
@@ -961,6 +1034,7 @@ pub fn run_useq(sc: &USeqScenario) -> Outcome {
                 u(|w| w.seq_actor = Some(who));
                 match t.kind {
                     TaskKind::Get { mut task, .. } => task.cancel(),
+                    TaskKind::Remove { mut task } => task.cancel(),
                     TaskKind::Add { id, mut task } => {
                         u(|w| {
                             if matches!(w.objs[id].loc, ULoc::Adding(_)) {
@@ -984,6 +1058,11 @@ pub fn run_useq(sc: &USeqScenario) -> Outcome {
                 let who = next_who;
                 next_who += 1;
                 one_shot(who, UOp::TimeoutGet0, &pool)
+            }
+            SOp::TimeoutRemove0 => {
+                let who = next_who;
+                next_who += 1;
+                one_shot(who, UOp::TimeoutRemove0, &pool)
             }
             SOp::TryAdd => one_shot(900, UOp::TryAdd, &pool),
             SOp::TryRemove => one_shot(900, UOp::TryRemove, &pool),
@@ -1030,7 +1109,7 @@ pub fn run_useq(sc: &USeqScenario) -> Outcome {
                     }
                 });
                 for t in &tasks {
-                    (t.woken(), t.is_get(), matches!(t.kind, TaskKind::Get { take: true, .. })).hash(&mut h);
+                    (t.woken(), t.is_get(), matches!(t.kind, TaskKind::Get { take: true, .. } | TaskKind::Remove { .. })).hash(&mut h);
                 }
                 closed.hash(&mut h);
                 let _ = explorer::bfs_visit(h.finish());
@@ -1045,6 +1124,7 @@ pub fn run_useq(sc: &USeqScenario) -> Outcome {
             u(|w| w.seq_actor = Some(who));
             match t.kind {
                 TaskKind::Get { mut task, .. } => task.cancel(),
+                    TaskKind::Remove { mut task } => task.cancel(),
                 TaskKind::Add { id, mut task } => {
                     u(|w| {
                         if matches!(w.objs[id].loc, ULoc::Adding(_)) {
@@ -1083,6 +1163,7 @@ pub fn run_useq(sc: &USeqScenario) -> Outcome {
         u(|w| w.seq_actor = Some(who));
         match t.kind {
             TaskKind::Get { mut task, .. } => task.cancel(),
+                    TaskKind::Remove { mut task } => task.cancel(),
             TaskKind::Add { id, mut task } => {
                 u(|w| {
                     if matches!(w.objs[id].loc, ULoc::Adding(_)) {
